@@ -114,13 +114,19 @@ where
                 SockRecv(Result<usize, std::io::Error>),
             }
 
-            let mut buf = [0; SOCK_SAMPLE_SIZE];
+            // Receive into a buffer that is one byte larger than a sample, so that
+            // oversized datagrams are seen as such instead of being truncated to a
+            // valid size by the kernel.
+            let mut recv_buf = [0; SOCK_SAMPLE_SIZE + 1];
 
             let selected: SelectResult = tokio::select! {
-                result = self.socket.recv(&mut buf) => {
+                result = self.socket.recv(&mut recv_buf) => {
                     SelectResult::SockRecv(result)
                 },
             };
+
+            let mut buf = [0; SOCK_SAMPLE_SIZE];
+            buf.copy_from_slice(&recv_buf[..SOCK_SAMPLE_SIZE]);
 
             match selected {
                 SelectResult::SockRecv(result) => match deserialize_sample(result, buf) {
